@@ -19,7 +19,7 @@ func (seg Segment) Other(v P) P {
 
 // contains reports whether the point p lies on the segment, endpoints included
 func (seg Segment) contains(p P) bool {
-	return orientation(seg.A, seg.B, p) == cln &&
+	return collinear(seg.A, seg.B, p) &&
 		p.X >= min(seg.A.X, seg.B.X) && p.X <= max(seg.A.X, seg.B.X) &&
 		p.Y >= min(seg.A.Y, seg.B.Y) && p.Y <= max(seg.A.Y, seg.B.Y)
 }
